@@ -129,8 +129,48 @@ let handle_walk words =
         | Walk.Err rp -> "X" ^ show_path rp) evs)
   | _ -> "badcase"
 
+(* ---- expr mind maxd post tokens roots ----
+   tokens: t<pid> a<pid> q<pid> r<pid> n A O C L R (comma separated, "~" = none)
+   roots: ';'-separated "<tree>|<id=bits,...>" (bits.[pid] = truth of primary pid on that entry; id r = the root)
+   result: "err" | "ok" then per root (separated by "|") the visits "<id>:<pid.pid...>" *)
+let parse_tok (s : string) : Expr.tok =
+  let prim k = { Expr.pid = nat_of_int (int_of_string (String.sub s 1 (String.length s - 1))); pk = k } in
+  match s.[0] with
+  | 't' -> Expr.TP (prim Expr.KTest) | 'a' -> Expr.TP (prim Expr.KAction)
+  | 'q' -> Expr.TP (prim Expr.KQuit) | 'r' -> Expr.TP (prim Expr.KPrune)
+  | 'n' -> Expr.TNot | 'A' -> Expr.TAnd | 'O' -> Expr.TOr | 'C' -> Expr.TComma
+  | 'L' -> Expr.TL | 'R' -> Expr.TR | _ -> failwith "tok"
+
+let handle_expr words =
+  match words with
+  | [mind; maxd; post; toks; roots] ->
+    let c = { Walk.mind = nat_of_int (int_of_string mind); maxd = nat_of_int (int_of_string maxd); post = (post = "1") } in
+    let ts = Stdlib.List.map parse_tok (list_of toks) in
+    let mkroot r =
+      match split_on '|' r with
+      | [tree; truth] ->
+        let tbl = Hashtbl.create 16 in
+        Stdlib.List.iter (fun kv -> match split_on '=' kv with
+            | [k; v] -> Hashtbl.replace tbl k v | _ -> failwith "truth") (list_of truth);
+        let tvf rp pid =
+          let key = match rp with [] -> "r" | id :: _ -> string_of_int (int_of_nat id) in
+          match Hashtbl.find_opt tbl key with
+          | Some bits -> let i = int_of_nat pid in i < String.length bits && bits.[i] = '1'
+          | None -> false in
+        (tvf, parse_tree tree)
+      | _ -> failwith "root" in
+    let rs = Stdlib.List.map mkroot (split_on ';' roots) in
+    (match Find.find_main_model c ts rs with
+     | Expr.Error -> "err"
+     | Expr.Ok groups ->
+       let show_visit (rp, tr) =
+         (match rp with [] -> "r" | id :: _ -> string_of_int (int_of_nat id)) ^ ":" ^
+         String.concat "." (Stdlib.List.map (fun i -> string_of_int (int_of_nat i)) tr) in
+       "ok " ^ String.concat " | " (Stdlib.List.map (fun g -> String.concat " " (Stdlib.List.map show_visit g)) groups))
+  | _ -> "badcase"
+
 let handlers : (string * (string list -> string)) list ref =
-  ref [ ("xread", handle_xread); ("xargs", handle_xargs); ("xrepl", handle_xrepl); ("xnorm", handle_xnorm); ("walk", handle_walk) ]
+  ref [ ("xread", handle_xread); ("xargs", handle_xargs); ("xrepl", handle_xrepl); ("xnorm", handle_xnorm); ("walk", handle_walk); ("expr", handle_expr) ]
 
 let () =
   try while true do
